@@ -76,7 +76,7 @@ def check_chart(ctx, chart, spec, ct, stage, lines, impl, metas):
     if vals != want_vals:
         ctx.fail("series-values", f"{ct.name} [{stage}]: values {vals[:3]}, supplied {want_vals[:3]}", case)
     if spec["kind"] not in ("xy", "bubble") and spec["series"]:
-        d1904 = root.xpath("string(/c:chartSpace/c:date1904/@val)", namespaces=lab.NS) in ("1", "true")
+        d1904 = lab.chart_is_1904(root)
         want = expect_cat_strings(spec, d1904)
         for pl in api:
             if not pl["series"]:
@@ -298,7 +298,10 @@ def foreign_state(ctx, rng, chart):
     if what in ("date1904", "both"):
         d = cs.xpath("./c:date1904")
         if d:
-            d[0].set("val", "1")
+            if rng.random() < 0.5:
+                d[0].set("val", "1")
+            elif "val" in d[0].attrib:
+                del d[0].attrib["val"]       # the bare element: val defaults to true
             ctx.count("foreign-state-date1904")
 
 
